@@ -968,7 +968,10 @@ def build_history(d: Path, case: dict) -> None:
     for i, spec in enumerate(case["earlier"]):
         save_json(d / TARGET, f"run-{i}", det_output(spec))
     if case.get("stale_tmp"):
-        (d / (TARGET + ".tmp")).write_bytes(b'{"stale": garbage')
+        # leftover of an earlier crashed save: either a short fragment, or (stale_tmp == "long") a partial dump that is
+        # LONGER than anything this save will write — a save that does not truncate its temporary keeps its tail
+        tail = b"" if case["stale_tmp"] != "long" else b'[0.5, 0.25], ' * 40000
+        (d / (TARGET + ".tmp")).write_bytes(b'{"stale": garbage' + tail)
 
 
 def crash_run(hist: Path, work: Path, case: dict, k: int | None):
@@ -1087,7 +1090,7 @@ def run_c20(tier, budget: Budget, rnd) -> StreamResult:
             case = {"earlier": [{"rows": rnd.randint(1, 12), "cols": rnd.randint(1, 12), "seed": rnd.randint(0, 10 ** 6)} for _ in range(earlier)],
                     "new": {"rows": dims[0], "cols": dims[1], "seed": rnd.randint(0, 10 ** 6)},
                     "name": rnd.choice(["new-run", "ü", "run-0" if rnd.random() < 0.3 else "zz"]),
-                    "stale_tmp": rnd.random() < 0.2}
+                    "stale_tmp": (["long", True, False, False, False][i % 5] if i < 10 else rnd.choice(["long", True, False, False, False]))}
             failures, ops = c20_case(res, script, base, case, f"c{i}")
             all_ops.append(ops)
             nchunks = sum(1 for o in ops if o[0] == "w")
@@ -1284,7 +1287,7 @@ def search(tier, budget: Budget, rnd, arg, disagreements) -> list[dict]:
             case = {"earlier": [{"rows": rnd.randint(1, 20), "cols": rnd.randint(1, 20), "seed": rnd.randint(0, 10 ** 6)}
                                 for _ in range(rnd.randint(0, 6))],
                     "new": {"rows": rnd.randint(1, 80), "cols": rnd.randint(1, 60), "seed": rnd.randint(0, 10 ** 6)},
-                    "name": "new-run", "stale_tmp": rnd.random() < 0.5}
+                    "name": "new-run", "stale_tmp": rnd.choice(["long", True, False])}
             failures, ops = c20_case(None, None, base, case, f"s{i}")
             for what, k, key in failures[:1]:
                 found.append({"what": what, "replay": replay_dict(case, k, ops, what), "key": key})
